@@ -55,6 +55,15 @@ def make_input(rng: random.Random, n_refs: int = 2, n_qry: int = 8, ref_labels=(
             coords, truth = gen.cut_query(rng, xs, w0, w0 + w, sigma=100,
                                           indel=(rng.randint(w0 + 5, w0 + w - 5),
                                                  rng.choice([-1, 1]) * rng.randint(3000, 40000)), offset=off)
+        elif kind == "smallindel":
+            # 0.5-3 kb inserted or deleted at one or two neighbouring labels: segments that end and start in the same pair
+            i0 = rng.randint(w0 + 4, w0 + w - 5)
+            coords, truth = gen.cut_query(rng, xs, w0, w0 + w, sigma=rng.choice([0, 0, 80]),
+                                          indel=(i0, rng.choice([-1, 1]) * rng.randint(500, 3000)), offset=off)
+            if rng.random() < 0.6:      # the same amount again at the next label
+                d = rng.randint(500, 1500)
+                k2 = min(len(coords) - 1, i0 - w0 + 1)
+                coords = coords[:k2] + [v + d for v in coords[k2:]]
         elif kind == "chimeric":
             w1 = max(8, w // 2)
             a, _ = gen.cut_query(rng, xs, w0, w0 + w1, sigma=100)
@@ -78,6 +87,21 @@ def make_input(rng: random.Random, n_refs: int = 2, n_qry: int = 8, ref_labels=(
             if kind == "swapped":
                 a, b = b, a
             coords = a + [a[-1] + gap + v for v in b]
+        elif kind == "flankdup":
+            # F + M + F: both flanks are noise-free copies of the SAME reference window F (M is a later window):
+            # the two second-pass fragments get exactly equal confidence (a tie between tasks of one query)
+            wf = rng.randint(13, 16)
+            wm = rng.randint(34, 42)
+            # the copy of F at the END of the molecule must be placed with a non-negative lag: F has to lie deeper
+            # in the reference than the molecule is long
+            # (and the whole molecule must fit into the reference at the lag of M: valid-mode correlation)
+            w0 = max(4, min(n - (wf + 3 + wm + 5), n // 2 - (wf + wm) // 2 + rng.randint(-5, 5)))
+            f, _ = gen.cut_query(rng, xs, w0, w0 + wf)
+            m0 = w0 + wf + 3
+            m, _ = gen.cut_query(rng, xs, m0, min(n - 2, m0 + wm))
+            g1, g2 = 100 * rng.randint(40, 90), 100 * rng.randint(40, 90)
+            a = f + [f[-1] + g1 + v for v in m]
+            coords = a + [a[-1] + g2 + v for v in f]
         elif kind == "partial":     # half of the molecule aligns, the rest is unrelated
             a, truth = gen.cut_query(rng, xs, w0, w0 + max(8, w // 2), sigma=100)
             x = a[-1]
@@ -100,7 +124,7 @@ def make_input(rng: random.Random, n_refs: int = 2, n_qry: int = 8, ref_labels=(
             coords = sorted(rng.sample(range(0, 30000), rng.choice([1, 2, 3])))
         else:
             raise ValueError(kind)
-        if rng.random() < 0.35 and kind not in ("mirror", "tiny"):
+        if rng.random() < 0.35 and kind not in ("mirror", "tiny", "flankdup"):
             coords = gen.mirror_query(coords, coords[-1] + coords[0])
             mirrored = True
         dx = deci(coords, rng if decimals else None)
